@@ -145,12 +145,12 @@ def rule_distinct(ctx, TM):
     for st in TM.sites:
         if st.kind == "SingleCardPair":
             n += 1
-            cp = P.strip(st.card_pair_term)
+            cp = P.strip(P.narrow_deep(P.strip(st.card_pair_term)))
 
             def is_card(k):
                 def f(t):
                     s = P.strip(t)
-                    return s[0] == "call" and s[1] == PAIR_INDEX and P.strip(s[2][0]) == cp and P.const_int(s[2][1]) == k
+                    return s[0] == "call" and s[1] == PAIR_INDEX and P.strip(P.narrow_deep(P.strip(s[2][0]))) == cp and P.const_int(s[2][1]) == k
                 return f
             edges = I.edges_implying(fn, pr, "Ne", is_card(0), is_card(1))
             # the two 2-byte halves of the text differing is equivalent (card text is a bijection)
